@@ -27,6 +27,13 @@ T = "utype/utils/transform.py"
 lacc = z3.Function("lacc", V, V, B, B, B)
 lconv = z3.Function("lconv", V, V, B, B, V)
 conf = z3.Function("conf", V, V, B)            # conf(v, t): v conforms to the declared type t (C01)
+parse_rejects = z3.Function("parse_rejects", V, V, B)   # T(value) raises (a ParseError)
+parsed = z3.Function("parsed", V, V, V)                  # the value T(value) returns
+
+
+@specfn("parse_accepts")
+def _parse_accepts(ex, fr, t, x):
+    return VBool(z3.Not(parse_rejects(ex.box(t), ex.box(x))))
 
 
 def accepts_t(t, x, nec, ndl):
@@ -114,11 +121,22 @@ class RuleClassModel(RecordModel):
         return RecordModel.getattr(self, ex, rec, name, node)
 
     def call(self, ex, rec, args, kwargs, node):
-        raise Unsupported("call of a Rule class")
+        """T(value): LogicalType.__call__ -> Rule.parse.  At this level of abstraction: a deterministic
+        partial function of the value -- returns parsed(T, value) or raises a ParseError (Rule.parse's
+        own contract: only ParseError escapes)."""
+        if len(args) != 1:
+            raise Unsupported("call of a Rule class with %d arguments" % len(args))
+        ex.world.ext.use(ex, "T(value) for a Rule class T: deterministic; returns or raises ParseError (contract of Rule.parse)")
+        t, x = ex.box(rec), ex.box(args[0])
+        if ex.branch(parse_rejects(t, x)):
+            ec = ex.fresh("ecls", V)
+            ex.assume(sym.sub(ec, ex.world.exc_class("ParseError").t))
+            raise PyExc(VExc(VCls(ec, name="<=ParseError"), {}, origin="Rule.parse"), node)
+        return VObj(parsed(t, x))
 
 
 RULE_FIELDS = dict(
-    __origin__=Cls(name="origin"), __args__=Seq("tuple"), __arg_transformers__=Seq("tuple"),
+    combinator=NONE, __origin__=Cls(name="origin"), __args__=Seq("tuple"), __arg_transformers__=Seq("tuple"),
     __ellipsis_args__=BOOL, __abstract__=BOOL, __applied__=BOOL, __origin_transformer__=OBJ,
     __options__=OBJ, contains=OBJ, min_contains=OBJ, max_contains=OBJ, __args_parser__=NONE,
     __validators__=Seq("list"),
@@ -591,6 +609,22 @@ class _MapD(Desc):
 
 
 DICT = _MapD()
+
+
+class _MapWF(_MapD):
+    """a dict as an invariant-carrying structure: no two entries have equal keys"""
+    name = "dict(distinct keys)"
+
+    def fresh(self, ex, pname):
+        m = _MapD.fresh(self, ex, pname)
+        ex.assume(ex.forall(0, m.n, lambda j: ex.forall(0, j, lambda i: z3.And(
+            z3.Select(m.keys, i) != z3.Select(m.keys, j),
+            z3.Not(sym.py_eq(z3.Select(m.keys, i), z3.Select(m.keys, j))),
+            z3.Not(sym.py_eq(z3.Select(m.keys, j), z3.Select(m.keys, i)))))))
+        return m
+
+
+DICT_WF = _MapWF()
 _KT, _VT = "cls.__args__[0]", "cls.__args__[1]"
 
 
@@ -872,3 +906,27 @@ _iface_lemma("Rule._parse_seq_args", _seq_cases())
 _iface_lemma("Rule._parse_tuple_args", _tuple_cases(), _tuple_setup)
 _iface_lemma("Rule._parse_map_args", _map_cases(), _map_setup)
 _iface_lemma("Rule._parse_type_arg", PARSE_TYPE_ARG.cases)
+
+
+
+# ------------------------------------------------------------------------------------ isinstance (C02)
+
+@contract(R, "LogicalType.__instancecheck__", props=["C02"])
+class INSTANCECHECK:
+    """C02: `isinstance(value, T)` gives the verdict of parsing: True exactly when the value is an instance
+    of the source type and T(value) succeeds (no shortcut may answer before the constraints ran)."""
+    cases = {"rule-with-origin": dict(cls=RULE(__origin__=Cls(name="origin")), obj=OBJ_NN),
+             "rule-without-origin": dict(cls=RULE(__origin__=NONE), obj=OBJ_NN)}
+    result = BOOL
+    returns_by_case = {"rule-with-origin": {"same_verdict_as_parsing": "result == (isinst(obj, cls.__origin__) and parse_accepts(cls, obj))"},
+                       "rule-without-origin": {"never": "result is False"}}
+    only_raises = []
+    frame = ["obj", "cls"]
+    assumes = ["obj is not itself a LogicalType (that branch defers to type.__instancecheck__)",
+               "cls is a plain Rule (no combinator); the combinator branch asks isinstance of the class arguments"]
+
+    @staticmethod
+    def setup(ex, frame):
+        o = frame.env["obj"]
+        # obj is not a class built by LogicalType
+        ex.assume(z3.Not(ex.world.is_class(o.t)))
